@@ -233,6 +233,7 @@ func (ex *Exec) flow(fr *Frame, loops map[*ssa.BasicBlock]*loopInfo, edges map[e
 		// back edge: invariant preservation
 		li := loops[succ]
 		ex.checkInvariants(fr, es, li, "inv-pres")
+		ex.checkBackEdge(fr, es, li, b)
 		for k, v := range headerLocks[succ] {
 			if lockTerm(es, k) != v {
 				ex.oblige(es, fr, "lock-balance", b.Instrs[len(b.Instrs)-1].Pos(), "loop "+fmt.Sprint(li.ordinal)+" back edge: "+k, eq(lockTerm(es, k), v))
@@ -1104,6 +1105,10 @@ type epochInfo struct {
 	prefixes map[string]bool
 	all      bool
 	lazyOnly bool
+	// merge epoch: the state is guard ? state of epoch mergeA : state of epoch mergeB
+	isMerge        bool
+	mergeA, mergeB int
+	mergeG         string
 }
 
 func (ex *Exec) loopContract(fr *Frame, li *loopInfo) *LoopContract {
@@ -1345,5 +1350,39 @@ func (ex *Exec) assumeInvariants(fr *Frame, st *State, li *loopInfo) {
 	defer func() { ex.invLoopBlocks = nil }()
 	for _, inv := range lc.Invariants {
 		ex.assume(st, ex.evalBool(fr, st, fr.entry, nil, inv.Expr))
+	}
+}
+
+// checkBackEdge: the loop contract's backedge clauses relate the state at a
+// back edge to the state at the start of the same iteration (atiter).
+func (ex *Exec) checkBackEdge(fr *Frame, st *State, li *loopInfo, from *ssa.BasicBlock) {
+	lc := ex.loopContract(fr, li)
+	if lc == nil || len(lc.BackEdge) == 0 {
+		return
+	}
+	hdr := ex.loopHdr[li]
+	if hdr == nil {
+		return
+	}
+	saved := st.iterSnap
+	st.iterSnap = hdr
+	defer func() { st.iterSnap = saved }()
+	pos := token.NoPos
+	if n := len(from.Instrs); n > 0 {
+		pos = from.Instrs[n-1].Pos()
+	}
+	for _, cl := range lc.BackEdge {
+		for _, e := range flattenAnd(cl.Expr) {
+			for _, part := range ex.splitClauseE(fr, st, nil, Clause{Expr: e, Text: exprText(e)}) {
+				term := part.term
+				if sk, ok := ex.skolemWithHyps(fr, st, part); ok {
+					term = sk
+				}
+				o := ex.oblige(st, fr, fmt.Sprintf("backedge(L%d)", li.ordinal), pos, part.text, term)
+				if o != nil && len(cl.Props) > 0 {
+					o.Props = cl.Props
+				}
+			}
+		}
 	}
 }
